@@ -108,32 +108,41 @@ inductive Res
   | unspecified              -- `readdir` on a stream whose position POSIX leaves unspecified
   deriving Repr, DecidableEq
 
-/-- `wasiFDReaddir` for a descriptor with path string `path` and stream state `dirSt` -/
-def fdReaddir (pm : Nat) (d : Dir) (path : Bytes) (dirSt : Option Pos) (mem : Mem)
-    (bufPtr bufLen cookie usedPtr : Nat) : Out Res :=
-  -- lazy opendir
+/-- first part of `wasiFDReaddir`: lazy `opendir` (only for cookie 0) and `seekdir` (only for a
+    non-zero cookie).  `.inl r` = early return, `.inr p` = position of the stream before the loop. -/
+def positionStream (pm : Nat) (d : Dir) (path : Bytes) (dirSt : Option Pos) (mem : Mem) (cookie : Nat) :
+    Out (Sum RdResult Pos) :=
   (match dirSt with
    | some p => (.val (.inr p) : Out (Sum RdResult Pos))
    | none =>
      if ¬ path.length < pm then .ub .bufferOverflow            -- strcpy(nativePath, descriptor.path)
      else if cookie ≠ Gen.WasiPath.dirCookieStart then .val (.inl ⟨Gen.WasiPath.errnoBadf, none, mem⟩)
      else .val (.inr (opendir d))) >>= fun
-  | .inl r => .val (.done r)
+  | .inl r => .val (.inl r)
   | .inr p0 =>
-    let p := if Gen.WasiPath.seekWhenCookie cookie then seekdir d (cookieToLong cookie) else p0
-    do
-    let mem ← i32Store mem usedPtr 0
-    match p with
-    | .unspec =>
-      if Gen.WasiPath.loopContinues 0 bufLen then .val .unspecified      -- readdir at an unspecified position
-      else do
-        let mem ← i32Store mem usedPtr 0
-        .val (.done ⟨Gen.WasiPath.errnoSuccess, some p, mem⟩)
-    | .at i => do
-      match ← rdLoop pm d path bufPtr bufLen (d.entries.drop i) i 0 mem with
-      | .ret e i' mem => .val (.done ⟨e, some (.at i'), mem⟩)
-      | .fall i' used mem => do
-        let mem ← i32Store mem usedPtr used
-        .val (.done ⟨Gen.WasiPath.errnoSuccess, some (.at i'), mem⟩)
+    .val (.inr (if Gen.WasiPath.seekWhenCookie cookie then seekdir d (cookieToLong cookie) else p0))
+
+/-- second part: `i32_store(bufferUsedPointer, 0)`, the loop, `i32_store(bufferUsedPointer, bufferUsed)` -/
+def readFrom (pm : Nat) (d : Dir) (path : Bytes) (p : Pos) (mem : Mem) (bufPtr bufLen usedPtr : Nat) : Out Res := do
+  let mem ← i32Store mem usedPtr 0
+  match p with
+  | .unspec =>
+    if Gen.WasiPath.loopContinues 0 bufLen then .val .unspecified      -- readdir at an unspecified position
+    else do
+      let mem ← i32Store mem usedPtr 0
+      .val (.done ⟨Gen.WasiPath.errnoSuccess, some p, mem⟩)
+  | .at i => do
+    match ← rdLoop pm d path bufPtr bufLen (d.entries.drop i) i 0 mem with
+    | .ret e i' mem => .val (.done ⟨e, some (.at i'), mem⟩)
+    | .fall i' used mem => do
+      let mem ← i32Store mem usedPtr used
+      .val (.done ⟨Gen.WasiPath.errnoSuccess, some (.at i'), mem⟩)
+
+/-- `wasiFDReaddir` for a descriptor with path string `path` and stream state `dirSt` -/
+def fdReaddir (pm : Nat) (d : Dir) (path : Bytes) (dirSt : Option Pos) (mem : Mem)
+    (bufPtr bufLen cookie usedPtr : Nat) : Out Res :=
+  positionStream pm d path dirSt mem cookie >>= fun
+  | .inl r => .val (.done r)
+  | .inr p => readFrom pm d path p mem bufPtr bufLen usedPtr
 
 end W2c2Verif.WasiReaddir
